@@ -212,6 +212,20 @@ func (w *World) VerifyFunc(fn *ssa.Function) *Ctx {
 		val := Val{T: q(nm), Typ: t}
 		f.vals[v] = val
 		f.params[name] = val
+		// what a parameter points to existed before the call: references held in
+		// its fields are below the entry allocation frontier
+		if pt, ok := t.Underlying().(*types.Pointer); ok {
+			if stt, ok := pt.Elem().Underlying().(*types.Struct); ok {
+				for i := 0; i < stt.NumFields(); i++ {
+					ft := stt.Field(i).Type()
+					switch ft.Underlying().(type) {
+					case *types.Pointer, *types.Interface, *types.Slice, *types.Map:
+						h, srt := c.fieldHeap(pt.Elem(), i)
+						c.assert(implies(not(eq(q(nm), "0")), c.typeFacts("(select "+c.heapInit(h, srt)+" "+q(nm)+")", ft, alloc0)))
+					}
+				}
+			}
+		}
 	}
 	for _, fv := range fn.FreeVars {
 		declare(fv.Name(), fv.Type(), fv)
